@@ -737,6 +737,67 @@ def k_stub(res, rng, tier, drv, dist):
 
 
 # ----------------------------------------------------------------------------
+# K4: the hierarchy is mutated between reads (class attributes assigned after the classes exist)
+# ----------------------------------------------------------------------------
+def k4(res, rng, tier, drv, dist):
+  """Deterministic family, the property's own oracle (CPython executes the same source): an attribute is read through
+  a class and its instance, then bound on another class of the hierarchy (between the reader and the old definer, on
+  the reader itself, on a sibling, on the far base), then read again — for a chain, a diamond and a mixin shape.
+  The type pytype infers for every read must be the type of the value CPython finds."""
+  import re as _re
+  shapes = {"chain": [("A", ""), ("B", "A"), ("C", "B")],
+            "diamond": [("A", ""), ("B", "A"), ("S", "A"), ("C", "B, S")],
+            "mixin": [("A", ""), ("M", ""), ("B", "A"), ("C", "M, B")]}
+  vals = ["''", "2.5", "b''", "None", "[1]"]
+  progs = []
+  for sname, classes in shapes.items():
+    names = [c for c, _ in classes]
+    for definer in names[:-1]:
+      for target in names:
+        L = []
+        for c, bs in classes:
+          L.append("class %s_%s%s:" % (sname, c, "(%s)" % ", ".join("%s_%s" % (sname, b.strip()) for b in bs.split(",")) if bs else ""))
+          L.append("  x = 1" if c == definer else "  pass")
+        rd = "%s_C" % sname
+        L += ["r0 = %s.x" % rd, "r1 = %s().x" % rd]
+        k = 2
+        for j, v in enumerate(vals[:3]):
+          L.append("%s_%s.x = %s" % (sname, target if j != 1 else definer, v))
+          L += ["r%d = %s.x" % (k, rd), "r%d = %s().x" % (k + 1, rd)]
+          k += 2
+        progs.append("\n".join(L) + "\n")
+  dis = []
+  n = 0
+  for src in progs:
+    ns = {}
+    try:
+      exec(compile(src, "<k4>", "exec"), ns)  # pylint: disable=exec-used
+    except Exception:  # pylint: disable=broad-except
+      continue
+    from pytype import config, io
+    try:
+      ret, pyi = io.generate_pyi(src, config.Options.create(python_version=(3, 12)))
+    except Exception as e:  # pylint: disable=broad-except
+      dis.append({"part": "K4 mutated hierarchy", "what": "pytype raised %r" % (e,), "src": src})
+      continue
+    inferred = dict(_re.findall(r"^(r\d+): (.+)$", pyi, _re.M))
+    for name, ty in sorted(inferred.items()):
+      if name not in ns:
+        continue
+      n += 1
+      want = type(ns[name]).__name__
+      want = {"NoneType": "None"}.get(want, want)
+      got = ty.split("[")[0]
+      if got != want and ty != "Any":
+        dis.append({"part": "K4 mutated hierarchy", "what": "read %s: CPython finds a %s, pytype infers %s" % (name, want, ty),
+                    "src": src})
+        break
+  dist["k4_programs"] = len(progs)
+  dist["k4_reads"] = n
+  return dis, n, len(progs)
+
+
+# ----------------------------------------------------------------------------
 # K
 # ----------------------------------------------------------------------------
 def correspond(res, rng, tier):
@@ -746,7 +807,7 @@ def correspond(res, rng, tier):
   dis = []
   evals = 0
   nontriv = 0
-  for part in (k1, k2, k2b, k3, k_stub):
+  for part in (k1, k2, k2b, k3, k_stub, k4):
     t0 = time.time()
     d, n, nt = part(res, rng, tier, drv, dist)
     dist[part.__name__ + "_wall_s"] = round(time.time() - t0, 1)
@@ -768,7 +829,8 @@ def correspond(res, rng, tier):
       "hierarchies per module, every class defines a random subset of attributes with a literal type unique to "
       "the class, and reader methods using zero- and two-argument super(); reads C.a, C().a - quick tier: one of the two, alternating - and C().s() for every class/attr) vs Lean pyMroTable/pyLookup: [mro-error] per class "
       "statement and definer of each read; stubs: mro.GetBasesInMRO on pytd.Class nodes (cls pointers or "
-      "lookup_ast; incl. cyclic) vs Lean getBasesInMro. non-trivial = K1: >=2 non-empty sequences sharing a "
+      "lookup_ast; incl. cyclic) vs Lean getBasesInMro; K4 (property oracle, no model): chain/diamond/mixin hierarchies "
+      "whose classes get an attribute assigned between reads, every read's inferred type vs the value CPython finds. non-trivial = K1: >=2 non-empty sequences sharing a "
       "symbol; K2/K3/stubs: some class has >=2 bases; distinct = distinct inputs within each part (parts summed)")
   return dis
 
